@@ -71,7 +71,7 @@ func init() {
 		ID: "T01", NeedCG: true, Quick: cfgAMD, Thorough: cfgAll,
 		Explanation: "scratch",
 		Run: func(w *World, r *Report, tier string) {
-			guard(r, "PAIR", func() { rulePAIRpar2(w, r); rulePAIRpar1(w, r); rulePAIRERRTYPE(w, r) })
+			guard(r, "GLOB", func() { ruleGLOB(w, r) })
 		},
 	})
 }
